@@ -25,3 +25,4 @@ def run(fb, rep, tier, cfg):
     r2g.r2h(fb, rep)
     r2g.r2i(fb, rep)
     r2g.r2j(fb, rep)
+    r2g.r2k(fb, rep)
